@@ -38,6 +38,8 @@ type c04Job struct {
 	K       int    `json:"k"` // steps per pair thread in the explored phase
 	Batch   int    `json:"batch"`
 	CID     string `json:"cid,omitempty"`   // "" srcB has its own chain id | "same": both sources declare chain id 7 (two providers), different chains behind them | "same+chain": same id and node2 serves node1's chain
+	Names   string `json:"names,omitempty"`  // name coincidences: "ig1=srcB" (integration named like its 2nd source) | "ig1=srcA" (like its 1st) | "ig2=srcB" (like a source only the OTHER integration uses)
+	Ranges  string `json:"ranges,omitempty"` // per-reference ranges of ig1's two sources: "ranged-unranged" | "unranged-ranged" | "different" (ig2's reference stays unranged)
 	Prune   int    `json:"prune,omitempty"` // n > 0: housekeeping shovel.PruneTask(ctx, pg, n) runs once, between steps:
 	PruneBy string `json:"prune_by,omitempty"` // … on the thread of this pair, before the pair's second step (as restarts do)
 	Deep    bool   `json:"deep,omitempty"` // two deviations instead of one (thorough tier, two-pair jobs without restart)
@@ -54,12 +56,13 @@ func init() {
 		ID:        "C04",
 		Level:     "model_checking",
 		Technique: "stateless model checking of the real pipeline (controlled scheduler over instrumented code, fake Postgres, two simulated nodes): all step-granular interleavings (plus preemption-bounded finer ones) of one thread per (source, integration) pair, one environment thread per source (growth + reorg) and a restart driver; oracle = frame condition on every commit diff (only rows and positions stamped with the acting pair may change), stamp of every inserted row, and per-pair projection of the pair's own canonical chain at quiescence",
-		Rule: "jobs = every subset of size 2 and 3 of {P1=(srcA,ig1), P2=(srcA,ig2), P3=(srcB,ig1)} (one shared table; srcA and srcB are different nodes with different chains; every pair has indexed block 1 before the explored phase) x declaration variant {same event, different events, same event with disjoint log_addr filters, different data plans on one client: headers+logs next to transaction indexing (full blocks) / next to the same event selecting tx_input (blocks+logs), identity columns (all / some) listed by the user in table.columns of the integration that shares the table (or of the only integration), one integration on two sources whose first input is filtered by reference (a database lookup per log inside Insert; no reorg in this job)} x restart {none, by P1 before its second step in the subset {P1,P2} (quick: variants same and addr; thorough: also by P2 there, and by P3 in {P1,P3} and {P2,P3})} x K=2 steps per pair (thorough also 3) with one reorg (longer replacement) per source; for the subsets with two sources also: both sources declaring the SAME chain id (different chains / the same chain behind them) and housekeeping shovel.PruneTask(n=2) once, before the second step of P1 or of P3 (on that pair's thread, like restarts); " +
+		Rule: "jobs = every subset of size 2 and 3 of {P1=(srcA,ig1), P2=(srcA,ig2), P3=(srcB,ig1)} (one shared table; srcA and srcB are different nodes with different chains; every pair has indexed block 1 before the explored phase) x declaration variant {same event, different events, same event with disjoint log_addr filters, different data plans on one client: headers+logs next to transaction indexing (full blocks) / next to the same event selecting tx_input (blocks+logs), identity columns (all / some) listed by the user in table.columns of the integration that shares the table (or of the only integration), one integration on two sources whose first input is filtered by reference (a database lookup per log inside Insert; no reorg in this job)} x restart {none, by P1 before its second step in the subset {P1,P2} (quick: variants same and addr; thorough: also by P2 there, and by P3 in {P1,P3} and {P2,P3})} x K=2 steps per pair (thorough also 3) with one reorg (longer replacement) per source; for the subsets with two sources also: name coincidences (integration named like its first / second source, or like a source only the other integration uses), per-reference ranges of the two-source integration (ranged then unranged, unranged then ranged, different ranges; three-block chains, reorg of block 3), both sources declaring the SAME chain id (different chains / the same chain behind them) and housekeeping shovel.PruneTask(n=2) once, before the second step of P1 or of P3 (on that pair's thread, like restarts); " +
 			"per job every schedule with free switches at the step boundaries of the first source's pairs and <= 1 preemption (thorough: 2 on the two-pair jobs without restart; three-pair jobs: quick 0, thorough 1); preemptive switches to a pair/environment thread only at RPC exchanges with its own node. Non-trivial = rows inserted by two different pairs or a reorg deletion committed; distinct = distinct (job, choice sequence).",
 		Assumptions: []string{
 			"fake Postgres (h/simpg) interprets the SQL shovel sends; simulated nodes (h/simeth) answer like well-behaved geth nodes",
 			"a commit is attributed to the pair whose harness thread issued it (goroutines spawned by a step belong to the step's thread)",
 			"a restart rebuilds ALL tasks (loadTasks, new source clients); a step already running on an old task finishes on it",
+			"a pair whose own reference has a stop is finished when it reports 'this is the end' at or above that stop; its blocks are start..stop of its OWN reference (an unranged pair starts at the head it first sees: block 1 in these jobs)",
 			"after the explored phase every pair is stepped sequentially until it reports 'no new blocks' (number of integrations + 1) times in a row, horizon 4*head+8 steps",
 			"reductions: in restart jobs only the restarting pair has free step boundaries; SQL statements of different pairs are not interleaved preemptively (only at step boundaries); the pair of the second source uses non-free step boundaries when both sources are present; in three-pair jobs the second source's reorg lands between that pair's two steps",
 		},
@@ -131,6 +134,26 @@ func c04Jobs(thorough bool) []c04Job {
 			jobs = append(jobs, c04Job{Pairs: ps, Var: "same", CID: "same", Prune: 2, PruneBy: "P3", K: 2, Batch: 1})
 		}
 	}
+	// name coincidences between integrations and sources; per-reference ranges of a multi-source integration
+	jobs = append(jobs,
+		c04Job{Pairs: "13", Var: "same", Names: "ig1=srcB", K: 2, Batch: 1},
+		c04Job{Pairs: "13", Var: "same", Names: "ig1=srcA", K: 2, Batch: 1},
+		c04Job{Pairs: "123", Var: "same", Names: "ig2=srcB", K: 2, Batch: 1},
+		c04Job{Pairs: "13", Var: "same", Ranges: "ranged-unranged", K: 2, Batch: 1},
+		c04Job{Pairs: "13", Var: "same", Ranges: "unranged-ranged", K: 2, Batch: 1},
+		c04Job{Pairs: "123", Var: "same", Ranges: "ranged-unranged", K: 2, Batch: 1},
+	)
+	if thorough {
+		jobs = append(jobs,
+			c04Job{Pairs: "123", Var: "same", Names: "ig1=srcB", K: 2, Batch: 1},
+			c04Job{Pairs: "123", Var: "event", Names: "ig1=srcA", K: 2, Batch: 1},
+			c04Job{Pairs: "13", Var: "same", Names: "ig1=srcB", Restart: "P3", K: 2, Batch: 1},
+			c04Job{Pairs: "13", Var: "same", Ranges: "different", K: 2, Batch: 1},
+			c04Job{Pairs: "123", Var: "same", Ranges: "different", K: 2, Batch: 1},
+			c04Job{Pairs: "123", Var: "same", Ranges: "unranged-ranged", K: 2, Batch: 1},
+			c04Job{Pairs: "13", Var: "same", Ranges: "ranged-unranged", Restart: "P1", K: 2, Batch: 1},
+		)
+	}
 	// heavy jobs first: the round-robin shards then get at most one of them each
 	weight := func(j c04Job) int {
 		switch {
@@ -166,6 +189,24 @@ type c04Pair struct {
 	host    string
 	chainID uint64
 	decl    *world.Decl
+	start   uint64 // the range of the pair's OWN source reference (0 = not given)
+	stop    uint64
+}
+
+// lo / hi: the blocks the pair has to index, given the block its source's head was at when an unranged pair first
+// polled (1 in these jobs) and the final head.
+func (pr *c04Pair) lo() uint64 {
+	if pr.start > 0 {
+		return pr.start
+	}
+	return 1
+}
+
+func (pr *c04Pair) hi(head uint64) uint64 {
+	if pr.stop > 0 && pr.stop < head {
+		return pr.stop
+	}
+	return head
 }
 
 type c04Prep struct {
@@ -263,15 +304,28 @@ func c04Prepare(j c04Job) (*c04Prep, error) {
 		cidB = 7 // a second provider of the same chain id
 		p.cidOf["node2"] = 7
 	}
+	// ranges of the source references (default: every reference starts at block 1, no stop)
+	rA, rB, r2 := world.SrcRef{Start: 1}, world.SrcRef{Start: 1}, world.SrcRef{Start: 1}
+	switch j.Ranges {
+	case "ranged-unranged": // a back-fill reference followed by a live one
+		rA, rB, r2 = world.SrcRef{Start: 1, Stop: 2}, world.SrcRef{}, world.SrcRef{}
+	case "unranged-ranged":
+		// (every stop lies below the fork point: a pair that has reached its stop never looks at its source again, so a
+		// later replacement of its last block would stay unrepaired — a matter of C03, not of isolation)
+		rA, rB, r2 = world.SrcRef{}, world.SrcRef{Start: 2, Stop: 2}, world.SrcRef{}
+	case "different":
+		rA, rB, r2 = world.SrcRef{Start: 1, Stop: 2}, world.SrcRef{Start: 2}, world.SrcRef{}
+	}
+	rA.Name, rB.Name, r2.Name = "srcA", "srcB", "srcA"
 	var s1, s2 []world.SrcRef
 	if has("1") {
-		s1 = append(s1, world.SrcRef{Name: "srcA", Start: 1})
+		s1 = append(s1, rA)
 	}
 	if has("3") {
-		s1 = append(s1, world.SrcRef{Name: "srcB", Start: 1})
+		s1 = append(s1, rB)
 	}
 	if has("2") {
-		s2 = append(s2, world.SrcRef{Name: "srcA", Start: 1})
+		s2 = append(s2, r2)
 	}
 	var d1, d2, dr *world.Decl
 	declares1 := len(s2) == 0 // identity columns are declared by ig2 when present (sharing the table), else by ig1 (alone)
@@ -299,31 +353,50 @@ func c04Prepare(j c04Job) (*c04Prep, error) {
 		p.decls = append(p.decls, dr)
 	}
 	p.nIG = len(p.decls)
+	// source names; name coincidences between integrations and sources (decl names do not depend on source names)
+	nameA, nameB := "srcA", "srcB"
+	switch j.Names {
+	case "ig1=srcB":
+		nameB = d1.Name
+	case "ig1=srcA":
+		nameA = d1.Name
+	case "ig2=srcB":
+		nameB = d2.Name
+	}
+	for _, d := range p.decls {
+		for i := range d.Sources {
+			if d.Sources[i].Name == "srcA" {
+				d.Sources[i].Name = nameA
+			} else {
+				d.Sources[i].Name = nameB
+			}
+		}
+	}
 	if has("1") {
-		p.pairs = append(p.pairs, c04Pair{"P1", "srcA", d1.Name, "node1", 7, d1})
+		p.pairs = append(p.pairs, c04Pair{"P1", nameA, d1.Name, "node1", 7, d1, rA.Start, rA.Stop})
 	}
 	if has("2") {
-		p.pairs = append(p.pairs, c04Pair{"P2", "srcA", d2.Name, "node1", 7, d2})
+		p.pairs = append(p.pairs, c04Pair{"P2", nameA, d2.Name, "node1", 7, d2, r2.Start, r2.Stop})
 	}
 	if has("3") {
-		p.pairs = append(p.pairs, c04Pair{"P3", "srcB", d1.Name, "node2", cidB, d1})
+		p.pairs = append(p.pairs, c04Pair{"P3", nameB, d1.Name, "node2", cidB, d1, rB.Start, rB.Stop})
 	}
 	if dr != nil { // the referenced integration's own pairs: stepped by the main thread only (set-up and drain)
 		for _, sr := range dr.Sources {
-			if sr.Name == "srcA" {
-				p.aux = append(p.aux, c04Pair{"R-A", "srcA", dr.Name, "node1", 7, dr})
+			if sr.Name == nameA {
+				p.aux = append(p.aux, c04Pair{"R-A", nameA, dr.Name, "node1", 7, dr, sr.Start, sr.Stop})
 			} else {
-				p.aux = append(p.aux, c04Pair{"R-B", "srcB", dr.Name, "node2", cidB, dr})
+				p.aux = append(p.aux, c04Pair{"R-B", nameB, dr.Name, "node2", cidB, dr, sr.Start, sr.Stop})
 			}
 		}
 	}
 	var srcs []world.Source
 	if has("1") || has("2") {
-		srcs = append(srcs, world.Source{Name: "srcA", ChainID: 7, URL: "http://node1", Batch: j.Batch, Conc: 1})
+		srcs = append(srcs, world.Source{Name: nameA, ChainID: 7, URL: "http://node1", Batch: j.Batch, Conc: 1})
 		p.hosts = append(p.hosts, "node1")
 	}
 	if has("3") {
-		srcs = append(srcs, world.Source{Name: "srcB", ChainID: cidB, URL: "http://node2", Batch: j.Batch, Conc: 1})
+		srcs = append(srcs, world.Source{Name: nameB, ChainID: cidB, URL: "http://node2", Batch: j.Batch, Conc: 1})
 		p.hosts = append(p.hosts, "node2")
 	}
 	p.conf = world.ConfJSON(srcs, p.decls)
@@ -337,11 +410,17 @@ func c04Prepare(j c04Job) (*c04Prep, error) {
 	// node1: block c indexed before the explored phase, then c p | reorg at 1: a p (longer).
 	// node2 (another chain): p, then p c | reorg at 1: c a.
 	mk := func(host string, salt uint64, w0, repl string) {
+		fork := 1
+		if j.Ranges != "" {
+			// range jobs: three blocks, the reorg replaces block 3 only — a reference that stops at block 2 has
+			// finished below the fork (a finished pair does not look at its source again)
+			w0, fork = w0+"a", 2
+		}
 		c0 := simeth.Build(specsFor(w0, 1, len(w0)), salt)
 		p.gen[host] = c0.Truncate(1)
 		p.init[host] = c0
-		word := w0[:1] + repl
-		c1 := c0.Reorg(1, specsFor(word, 2, 1+len(repl)), salt+1)
+		word := w0[:fork] + repl
+		c1 := c0.Reorg(uint64(fork), specsFor(word, fork+1, fork+len(repl)), salt+1)
 		if j.Var == "ref" {
 			// the job about overlapping inserts of ONE integration on two sources keeps both sources still
 			p.final[host] = c0
@@ -401,6 +480,13 @@ func c04Exec(j c04Job, p *c04Prep, ch vrt.Chooser, states *vrt.StateSet, trace b
 		return k
 	}
 	tag := j.Var // declaration variant; the subset of pairs is in the job
+	if j.Names != "" {
+		tag += ":names(" + j.Names + ")"
+	}
+	rtag := tag
+	if j.Ranges != "" {
+		rtag += ":" + j.Ranges
+	}
 	pairByThread := map[string]*c04Pair{}
 	for i := range p.pairs {
 		pairByThread[p.pairs[i].name] = &p.pairs[i]
@@ -437,6 +523,29 @@ func c04Exec(j c04Job, p *c04Prep, ch vrt.Chooser, states *vrt.StateSet, trace b
 			if _, ok := colsOf[pr.decl.Table]; !ok {
 				colsOf[pr.decl.Table] = w.TableCols(pr.decl.Table)
 			}
+		}
+		// every task is built with the range of ITS OWN source reference
+		checkRanges := func(ts []*world.Task, when string) bool {
+			for _, t := range ts {
+				pr := pairByKey[t.Key()]
+				if pr == nil {
+					vio("stamp", "task-for-unknown-pair:"+tag, fmt.Sprintf("%s: loadTasks built a task for (%s, %s), which is no configured pair", when, t.Src, t.IG))
+					return false
+				}
+				if t.Start != pr.start || t.Stop != pr.stop {
+					vio("range", "range:task-built-with-foreign-range:"+rtag, fmt.Sprintf("%s: the task of pair (%s, %s) was built with start=%d stop=%d, its own source reference says start=%d stop=%d", when, pr.src, pr.ig, t.Start, t.Stop, pr.start, pr.stop))
+					return false
+				}
+			}
+			return true
+		}
+		if !checkRanges(tasks, "start-up") {
+			return
+		}
+		// finished(pr): the pair has a stop and has reached it
+		finished := func(pr *c04Pair) bool {
+			cur, has := w.Latest(pr.src, pr.ig)
+			return pr.stop > 0 && has && cur.Num >= pr.stop
 		}
 		// reference filters look values up in the referenced integration's table (whatever source wrote them)
 		refVals := map[string]bool{}
@@ -574,6 +683,9 @@ func c04Exec(j c04Job, p *c04Prep, ch vrt.Chooser, states *vrt.StateSet, trace b
 						if res.vio != nil || w.V.Closing() {
 							return false
 						}
+						if out == "done" && finished(pr) {
+							break
+						}
 						if out == "nothing" {
 							// patient: the client's head cache may answer up to (number of integrations) polls with an older head
 							if idle++; idle > p.nIG || !patient {
@@ -695,6 +807,9 @@ func c04Exec(j c04Job, p *c04Prep, ch vrt.Chooser, states *vrt.StateSet, trace b
 							w.HarnessErr = fmt.Sprintf("restart loadTasks: %v (%d tasks)", err, len(nt))
 							return
 						}
+						if !checkRanges(nt, "restart") {
+							return
+						}
 						for _, t := range nt {
 							current[t.Key()] = t
 						}
@@ -721,6 +836,12 @@ func c04Exec(j c04Job, p *c04Prep, ch vrt.Chooser, states *vrt.StateSet, trace b
 						return
 					case "error":
 						res.stepErrs[errClass(err)]++
+					case "done":
+						if !finished(pr) {
+							cur, _ := w.Latest(pr.src, pr.ig)
+							vio("range", "range:done-without-own-stop:"+rtag, fmt.Sprintf("pair (%s, %s) (own reference: start=%d stop=%d) reports 'this is the end' at position %d", pr.src, pr.ig, pr.start, pr.stop, cur.Num))
+						}
+						return // a finished pair takes no further steps
 					}
 					if cur, _ := w.Latest(pr.src, pr.ig); out == "nothing" && cur.Num < w.Node(pr.host).Chain().Head().Num && stale < p.nIG {
 						// the head cache answered with an older head although the source is ahead: a real task polls again
@@ -789,6 +910,9 @@ func c04Exec(j c04Job, p *c04Prep, ch vrt.Chooser, states *vrt.StateSet, trace b
 			head := p.final[pr.host].Head().Num
 			t := current[pr.src+"/"+pr.ig]
 			nothing := 0
+			if finished(pr) {
+				continue
+			}
 			var lastOut string
 			var lastErr error
 			for s := 0; s < 4*int(head)+8 && nothing < p.nIG+1; s++ {
@@ -803,6 +927,15 @@ func c04Exec(j c04Job, p *c04Prep, ch vrt.Chooser, states *vrt.StateSet, trace b
 				if lastOut == "panic" {
 					vio("panic", "panic:"+tag, fmt.Sprintf("Converge of (%s, %s) panicked: %v", pr.src, pr.ig, lastErr))
 					return
+				}
+				if lastOut == "done" {
+					if !finished(pr) {
+						cur, _ := w.Latest(pr.src, pr.ig)
+						vio("range", "range:done-without-own-stop:"+rtag, fmt.Sprintf("pair (%s, %s) (own reference: start=%d stop=%d) reports 'this is the end' at position %d", pr.src, pr.ig, pr.start, pr.stop, cur.Num))
+						return
+					}
+					nothing = p.nIG + 1
+					break
 				}
 				if lastOut == "nothing" {
 					nothing++
@@ -836,20 +969,20 @@ func c04Exec(j c04Job, p *c04Prep, ch vrt.Chooser, states *vrt.StateSet, trace b
 			known[pr.decl.Table+"|"+pr.src+"/"+pr.ig] = true
 			knownPos[pr.src+"/"+pr.ig] = true
 			final := p.final[pr.host]
-			head := final.Head().Num
+			head := pr.hi(final.Head().Num) // the pair's own stop, when below the source's head
 			got := world.RenderDump(byPair[pr.decl.Table+"|"+pr.src+"/"+pr.ig], cols)
-			want := world.RenderRows(pr.decl.Expect(final, pr.src, pr.chainID, 1, head, look), cols)
+			want := world.RenderRows(pr.decl.Expect(final, pr.src, pr.chainID, pr.lo(), head, look), cols)
 			if trace {
 				res.steps = append(res.steps, fmt.Sprintf("quiescence: pair (%s, %s) has %d rows, projection has %d", pr.src, pr.ig, len(got), len(want)))
 			}
 			if strings.Join(got, "\n") != strings.Join(want, "\n") {
 				sym := c04Symptom(p, pr, cols, got, want, look)
-				vio("rows", "rows:"+sym+":"+tag, fmt.Sprintf("at quiescence the rows stamped (%s, %s) != projection of %s's canonical chain (head %d) for %s\n%s", pr.src, pr.ig, pr.src, head, pr.ig, world.DiffSorted(got, want)))
+				vio("rows", "rows:"+sym+":"+rtag, fmt.Sprintf("at quiescence the rows stamped (%s, %s) != projection of %s's canonical chain, blocks %d..%d (the pair's own reference: start=%d stop=%d), for %s\n%s", pr.src, pr.ig, pr.src, pr.lo(), head, pr.start, pr.stop, pr.ig, world.DiffSorted(got, want)))
 				return
 			}
 			cur, has := w.Latest(pr.src, pr.ig)
-			if !has || cur.Num != head || (len(cur.Hash) == 32 && string(cur.Hash) != string(final.Head().Hash)) {
-				vio("cursor", "position:"+tag, fmt.Sprintf("at quiescence pair (%s, %s) has position %d (present=%v, hash %x), its source's head is %d (%x)", pr.src, pr.ig, cur.Num, has, cur.Hash, head, final.Head().Hash[:6]))
+			if !has || cur.Num != head || (len(cur.Hash) == 32 && string(cur.Hash) != string(final.Blocks[head].Hash)) {
+				vio("cursor", "position:"+rtag, fmt.Sprintf("at quiescence pair (%s, %s) (own reference: start=%d stop=%d) has position %d (present=%v, hash %x); it has to be at block %d (%x)", pr.src, pr.ig, pr.start, pr.stop, cur.Num, has, cur.Hash, head, final.Blocks[head].Hash[:6]))
 				return
 			}
 			for _, c := range w.Cursors() {
